@@ -4,6 +4,8 @@
 package hclwrite
 
 import (
+	"strings"
+
 	"github.com/hashicorp/hcl/v2/hclsyntax"
 	"github.com/zclconf/go-cty/cty"
 )
@@ -168,6 +170,29 @@ func (bl *blockLabels) Current() []string {
 				// An open quote followed immediately by a closing quote is a
 				// valid but unusual blank string label.
 				labelNames = append(labelNames, "")
+			} else if len(tokens) > 3 &&
+				tokens[0].Type == hclsyntax.TokenOQuote &&
+				tokens[len(tokens)-1].Type == hclsyntax.TokenCQuote {
+				// The scanner splits a literal at "$" and "%" characters that
+				// turn out not to introduce a template sequence, so a label
+				// such as "a$b" consists of several literal tokens.
+				var buf strings.Builder
+				valid := true
+				for _, tok := range tokens[1 : len(tokens)-1] {
+					if tok.Type != hclsyntax.TokenQuotedLit {
+						valid = false
+						break
+					}
+					part, diags := hclsyntax.ParseStringLiteralToken(tok.asHCLSyntax())
+					if diags.HasErrors() {
+						valid = false
+						break
+					}
+					buf.WriteString(part)
+				}
+				if valid {
+					labelNames = append(labelNames, buf.String())
+				}
 			}
 
 		default:
